@@ -107,6 +107,12 @@ TEMPLATES = [
     ("re_search_all_opt", 'search_all({a} $ " a1 b22 -3", R"([a-z])?(?P<num>\\d+)(?P<t>x)?")', 1),
     ("re_replace_fn", 'replace(str({a}) $ " a1 b", R"(?P<w>[a-z])(?P<d>\\d)?", \\m -> "<" $ str(m) $ ">")', 1),
     ("re_replace_str", 'replace(str({a}), R"(.)(x)?", "$2$1")', 1),
+    # operator patterns whose inverse divides: a zero factor / unusual literal must fail to match, not crash
+    ("switch_mul0", "switch ({a}) case 0 * k -> k case k * 0 -> k case _ -> 2", 1),
+    ("switch_mulk", "switch ({a}) case 3 * k -> k case k * (-2) -> k case _ -> 2", 1),
+    ("declare_mul0", "try ((k * 0) := {a}; k) catch e -> \"E\"", 1),
+    ("switch_plus_div", "switch ({a}) case k + 0 -> k case _ -> 2", 1),
+    ("switch_ratio", "switch ({a}) case p / q -> [p, q] case _ -> 2", 1),
     ("backref", "\\1", 0), ("import_missing", 'import "/nonexistent/x.noul"', 0),
 ]
 OPASSIGN_FUNCS = ["append", "++", "max", "$", "|.", "||", ".+", "-", "*", "//", "%", "^", "&", ">>", "!!", "zip", "**"]
